@@ -68,12 +68,15 @@ def model_outcomes(guard: str):
     return r
 
 
-def real_explicit(integ, o, stmts_per_sink):
+NSS = [("ex", "http://e/"), ("", "http://other.example/ns#"), ("g", "http://g/")]
+
+
+def real_explicit(integ, o, stmts_per_sink, nsdecl=False):
     """Explicit Stream class, frames pulled from stream_frames once per sink (what grouped_stream_to_frames does)."""
     c = o["cfg"]
     cfg = impl.default_cfg(integ=integ, entry="stream_frames", sclass=c["sclass"], ltype=c["lt"], delimited=c["delimited"],
                            frame_size=c["fs"], flow=(None if c["flow"] == "inferred" else c["flow"]), preset=(8, 4, 2),
-                           gen=(integ == "generic"), star=(integ == "generic"))
+                           gen=(integ == "generic"), star=(integ == "generic"), nsdecl=nsdecl)
     stream = impl.make_stream(cfg)
     # Tier 2: the flow the Stream ended up with is the one PyConfig.Construct predicts (class, logical type, frame size)
     kinds = {"ManualFrameFlow": "manual", "BoundedFrameFlow": "bounded", "FlatTriplesFrameFlow": "flat_triples", "FlatQuadsFrameFlow": "flat_quads",
@@ -86,7 +89,8 @@ def real_explicit(integ, o, stmts_per_sink):
     out = io.BytesIO()
     n = 0
     for stmts in stmts_per_sink:
-        data = impl.generic_sink(stmts) if integ == "generic" else impl.rdflib_container(stmts, dataset=(c["sclass"] != "triple"))
+        nss = NSS if nsdecl else ()
+        data = impl.generic_sink(stmts, nss) if integ == "generic" else impl.rdflib_container(stmts, nss, dataset=(c["sclass"] != "triple"))
         for fr in mod.stream_frames(stream, data):
             (impl.write_delimited if c["delimited"] else impl.write_single)(fr, out)
             n += 1
@@ -132,8 +136,14 @@ def main(tier: str) -> int:
             except wire.WireError as ex:
                 case["undecodable"] = str(ex)
                 return
-            traces.append({"id": len(cases) - 1, "rows": terms.jrows_of_frames(frames), "mode": mode,
-                           "exp": [terms.jitem(terms.norm_item(s)) for s in items]})
+            rows_ = terms.jrows_of_frames(frames)
+            if mode == "stmts":                   # ignore namespace rows for the expectation, keep them for validity
+                n_ns = sum(1 for r_ in rows_ if r_["r"] == "ns")
+                case["ns_rows"] = n_ns
+                traces.append({"id": len(cases) - 1, "rows": [r_ for r_ in rows_], "mode": "none", "exp": []})
+                case["expect_statements"] = len(items)
+            else:
+                traces.append({"id": len(cases) - 1, "rows": rows_, "mode": mode, "exp": [terms.jitem(terms.norm_item(s)) for s in items]})
 
     for o in outcomes:
         c = o["cfg"]
@@ -147,6 +157,11 @@ def main(tier: str) -> int:
                    "flow": c["flow"], "frame_size": c["fs"], "sinks": c["nsinks"]}
             add(key, {"cfg": c, "statements": per_sink}, bool(o["raised"]),
                 lambda integ=integ, o=o, per_sink=per_sink: real_explicit(integ, o, per_sink), items, "seq" if integ == "generic" else "set")
+            if c["nsinks"] == 1 and (tier == "thorough" or c["fs"] != 250):
+                # the same point with namespace declarations enabled and three bindings on the sink (validity + statements judged; the
+                # declarations themselves are C14's subject, so the expectation is the statement SET)
+                add(dict(key, nsdecl=True), {"cfg": c, "statements": per_sink, "namespaces": NSS}, bool(o["raised"]),
+                    lambda integ=integ, o=o, per_sink=per_sink: real_explicit(integ, o, per_sink, nsdecl=True), items, "stmts")
     # entry points that choose the Stream class themselves
     for lt in (0, 1, 2, 3, 4, 13, 14, 114):
         for delimited in (True, False):
@@ -210,6 +225,8 @@ def main(tier: str) -> int:
                           + (f" ({case['left']} rows left in stream.flow)" if case["left"] else ""), rp)
             continue
         v = by_case[i]
+        if v["verdict"] == "ok" and "expect_statements" in case and v["n"] - case.get("ns_rows", 0) != case["expect_statements"]:
+            v = dict(v, verdict=f"D-{v['n'] - case.get('ns_rows', 0)}-statements-of-{case['expect_statements']}")
         if v["verdict"] != "ok":
             run.violation({"clause": "statements-missing", "tier1": v["verdict"], **key},
                           f"accepted without raising but the bytes written do not hold the input: {v['verdict']}"
